@@ -3,6 +3,8 @@ package main
 import (
 	"fmt"
 	"go/token"
+	"strconv"
+	"strings"
 
 	"golang.org/x/tools/go/ssa"
 )
@@ -66,9 +68,17 @@ func (P *Program) checkFrame(fn *ssa.Function, depth int) []string {
 			return
 		}
 		if ct := P.contractFor(callee); ct != nil {
-			if !ct.ModNothing {
-				bad = append(bad, pos(p)+": callee contract is not frame-free: "+fnKey(callee))
+			if ct.ModNothing {
+				return
 			}
+			// a callee that writes only into one argument object is harmless when that object was
+			// allocated by the function under check
+			if ct.ModObject != "" && len(ct.ModKinds) == 0 && ct.ModYounger == "" && strings.HasPrefix(ct.ModObject, "arg") {
+				if k, err := strconv.Atoi(ct.ModObject[3:]); err == nil && k < len(c.Args) && local(c.Args[k]) {
+					return
+				}
+			}
+			bad = append(bad, pos(p)+": callee contract is not frame-free: "+fnKey(callee))
 			return
 		}
 		if callee.Blocks != nil && P.inRepo(callee) && depth < 4 {
